@@ -92,10 +92,11 @@ def g_formula(draw):
         p["variances"] = np.maximum(raw, fl)
     if "raw_variances" not in c and float(p["scales"].min()) >= 1 and gen.choice(draw, [False, False, True]):
         # integral means and variances, handed over as int64 arrays
-        p["means"] = np.rint(p["means"])
-        p["variances"] = np.maximum(np.rint(p["variances"]), 1.0)
-        fl = np.broadcast_to(np.asarray(p["floors"], float), p["variances"].shape)
-        if (p["variances"] >= fl).all():
+        iv = np.maximum(np.rint(p["variances"]), 1.0)
+        fl = np.broadcast_to(np.asarray(p["floors"], float), iv.shape)
+        if (iv >= fl).all():
+            p["means"] = np.rint(p["means"])
+            p["variances"] = iv
             c["int_params"] = True
     return c
 
